@@ -27,7 +27,29 @@ class Nums:
         return len(self.v) - 1
 
 
-def project(m, version, zen, azi):
+def gen_req(rng):
+    """what is asked of the BASIC program after the antenna description: through `main` only the dBi pattern; through the
+    API also V/m patterns (new power level, distance), a pattern file and near-field requests (new power level)"""
+    u = rng.random()
+    if u < 0.5:
+        return None
+    req = dict(ff_abs=rng.random() < 0.6, pwr_ff=None, ff_dist=None, near=None, pwr_nf=None, gainfile=None)
+    if req['ff_abs']:
+        req['ff_dist'] = rng.choice([1000.0, 250.0, 1e4])
+        if rng.random() < 0.5:
+            req['pwr_ff'] = rng.choice([100.0, 1.5, 1000.0])
+    if rng.random() < 0.3:
+        req['gainfile'] = 'PATTERN.OUT'
+    if rng.random() < 0.6:
+        req['near'] = [rng.choice([0.0, 1.0, -2.5]), rng.choice([0.0, 0.5]), rng.choice([1.0, 3.0]),
+                       rng.choice([0.1, 1.0]), rng.choice([0.1, 0.5]), rng.choice([0.2, 1.0]),
+                       rng.randint(1, 4), rng.randint(1, 3), rng.randint(1, 5)]
+        if rng.random() < 0.5:
+            req['pwr_nf'] = rng.choice([100.0, 2.5])
+    return req
+
+
+def project(m, version, zen, azi, req=None):
     """the antenna as BASIC MININEC must see it -> (request tokens, number table)"""
     from mininec.mininec import Impedance_Load, Skin_Effect_Load, Insulation_Load
     nm = Nums()
@@ -81,11 +103,23 @@ def project(m, version, zen, azi):
     t += [1 if (is_s and loads) else 0, len(loads)]
     for l in loads:
         t += l
+    rq = req or {}
     if zen is not None:
-        t += ['pat', 0, 0, 0, 0] + [nm.id(zen.initial), nm.id(zen.inc), nm.id(zen.number)] + \
-             [nm.id(azi.initial), nm.id(azi.inc), nm.id(azi.number)] + ['-']
+        ffa = bool(rq.get('ff_abs'))
+        pw = rq.get('pwr_ff') if ffa else None
+        t += ['pat', 1 if ffa else 0, 1 if pw is not None else 0, nm.id(pw) if pw is not None else 0,
+              nm.id(rq['ff_dist']) if ffa else 0] + [nm.id(zen.initial), nm.id(zen.inc), nm.id(zen.number)] + \
+             [nm.id(azi.initial), nm.id(azi.inc), nm.id(azi.number)] + [hexs(rq['gainfile']) if rq.get('gainfile') else '-']
     else:
         t.append('nopat')
+    if rq.get('near'):
+        nr = rq['near']
+        t.append('near')
+        for k in range(3):
+            t += [nm.id(nr[k]), nm.id(nr[3 + k]), int(nr[6 + k])]
+        t += [1 if rq.get('pwr_nf') is not None else 0, nm.id(rq['pwr_nf']) if rq.get('pwr_nf') is not None else 0]
+    else:
+        t.append('nonear')
     return t, nm
 
 
@@ -223,7 +257,7 @@ def apply_srcform(m, form):
         m.register_source(Excitation(mag, ph), s.idx)
 
 
-def real_text(argv, version, srcform=None):
+def real_text(argv, version, srcform=None, req=None):
     from mininec.mininec import Angle
     r = run_main(argv, want_mininec=True)
     m = r['m']
@@ -235,7 +269,12 @@ def real_text(argv, version, srcform=None):
     zen = Angle(float(th[0]), float(th[1]), int(th[2]))
     azi = Angle(float(ph[0]), float(ph[1]), int(ph[2]))
     args = types.SimpleNamespace(mininec_version=version)
-    txt = m.as_basic_input(args, azi=azi, zen=zen)
+    kw = {}
+    if req:
+        kw = dict(ff_abs=req['ff_abs'], pwr_ff=req['pwr_ff'], ff_dist=req['ff_dist'], near=req['near'], pwr_nf=req['pwr_nf'])
+        if req.get('gainfile'):
+            kw['gainfile'] = req['gainfile']
+    txt = m.as_basic_input(args, azi=azi, zen=zen, **kw)
     return m, txt, zen, azi, r
 
 
@@ -302,17 +341,102 @@ def python_reader(txt):
                 out['loads'].append((p, cs))
             else:
                 out['loads'].append((int(a[0]), complex(float(a[1]), float(a[2]))))
+    # the requests: currents (not saved), optional pattern, optional near fields, quit — every line is consumed
+    assert nxt() == 'C'
+    assert nxt() == 'N'
+    tail = dict(pat=None, near=[])
+
+    def power():
+        a = nxt()
+        if a == 'N':
+            return None
+        assert a == 'Y'
+        w = float(nxt())
+        assert nxt() == 'N'
+        return w
+    cmd = nxt()
+    if cmd == 'P':
+        kind = nxt()
+        assert kind in ('D', 'V')
+        pt = dict(ff_abs=(kind == 'V'), pwr=None, dist=None)
+        if kind == 'V':
+            pt['pwr'] = power()
+            pt['dist'] = float(nxt())
+        pt['zen'] = [float(x) for x in nxt().split(',')]
+        pt['azi'] = [float(x) for x in nxt().split(',')]
+        assert len(pt['zen']) == 3 and len(pt['azi']) == 3
+        g = nxt()
+        assert g in ('Y', 'N')
+        pt['gainfile'] = nxt() if g == 'Y' else None
+        tail['pat'] = pt
+        cmd = nxt()
+    while cmd == 'N':
+        ft = nxt()
+        assert ft in ('E', 'H')
+        rg = []
+        for k in range(3):
+            a = nxt().split(',')
+            assert len(a) == 3
+            rg.append((float(a[0]), float(a[1]), int(a[2])))
+        pw = power()
+        assert nxt() == 'N'
+        tail['near'].append((ft, rg, pw))
+        cmd = nxt()
+    assert cmd == 'Q', 'command %r where Q is expected' % cmd
+    assert i[0] == len(L), 'lines after Q'
+    out['tail'] = tail
     return out
 
 
-def property_on_impl(argv, version, srcform=None):
-    m, txt, zen, azi, r = real_text(argv, version, srcform)
+def tail_bad(tail, zen, azi, req):
+    """the requests read from the generated input against what was asked for"""
+    def near(a, b):
+        return abs(a - b) <= 2e-5 * max(abs(a), abs(b)) + 1e-12
+    rq = req or {}
+    pt = tail['pat']
+    if pt is None:
+        return 'no pattern request in the input'
+    if pt['ff_abs'] != bool(rq.get('ff_abs')):
+        return 'pattern asked in %s, the input answers %s' % ('V/m' if rq.get('ff_abs') else 'dBi', 'V' if pt['ff_abs'] else 'D')
+    if pt['ff_abs']:
+        want = rq.get('pwr_ff')
+        if (pt['pwr'] is None) != (want is None) or (want is not None and not near(pt['pwr'], want)):
+            return 'new power level of the pattern: asked %r, the input says %r' % (want, pt['pwr'])
+        if not near(pt['dist'], rq['ff_dist']):
+            return 'radial distance: asked %r, the input says %r' % (rq['ff_dist'], pt['dist'])
+    for nm_, got, a in (('zenith', pt['zen'], zen), ('azimuth', pt['azi'], azi)):
+        if not (near(got[0], a.initial) and near(got[1], a.inc) and near(got[2], a.number)):
+            return '%s angles: asked %r, the input says %r' % (nm_, (a.initial, a.inc, a.number), got)
+    if pt['gainfile'] != rq.get('gainfile'):
+        return 'pattern file: asked %r, the input says %r' % (rq.get('gainfile'), pt['gainfile'])
+    nr = rq.get('near')
+    if not nr:
+        if tail['near']:
+            return 'near fields are requested in the input although none were asked for'
+        return None
+    if [t[0] for t in tail['near']] != ['E', 'H']:
+        return 'near-field requests in the input: %r, expected the electric then the magnetic field' % [t[0] for t in tail['near']]
+    for ft, rg, pw in tail['near']:
+        for k in range(3):
+            if not (near(rg[k][0], nr[k]) and near(rg[k][1], nr[3 + k]) and rg[k][2] == int(nr[6 + k])):
+                return 'near field %s, axis %d: asked (%r, %r, %r), the input says %r' % (ft, k, nr[k], nr[3 + k], nr[6 + k], rg[k])
+        want = rq.get('pwr_nf')
+        if (pw is None) != (want is None) or (want is not None and not near(pw, want)):
+            return 'new power level of the near field %s: asked %r, the input says %r' % (ft, want, pw)
+    return None
+
+
+def property_on_impl(argv, version, srcform=None, req=None):
+    m, txt, zen, azi, r = real_text(argv, version, srcform, req)
     if m is None:
         return None
     try:
         rd = python_reader(txt)
     except Exception as e:
         return 'generated input does not follow the prompt order: %s' % e
+    tb = tail_bad(rd['tail'], zen, azi, req)
+    if tb:
+        return tb
 
     def near(a, b, rel=2e-5):
         return abs(a - b) <= rel * max(abs(a), abs(b)) + 1e-12
@@ -395,7 +519,7 @@ def replay(rp):
     if 'argv' not in rp:
         print('replay: nothing to execute:', rp.get('kind'))
         return 1
-    bad = property_on_impl(rp['argv'], rp.get('version', '12'), rp.get('srcform'))
+    bad = property_on_impl(rp['argv'], rp.get('version', '12'), rp.get('srcform'), rp.get('req'))
     print('replay ->', bad or 'property holds')
     return 1 if bad else 0
 
@@ -412,13 +536,14 @@ def run(ck):
     for argv, kind in cases:
         version = rng.choice(['9', '12', '13'])
         srcform = rng.choice(SRCFORMS)
-        m, txt, zen, azi, r = real_text(argv, version, srcform)
+        req = gen_req(rng)
+        m, txt, zen, azi, r = real_text(argv, version, srcform, req)
         if m is None:
             ck.count('rejected_' + r['kind'])
             continue
         ck.count('sources_' + (srcform or 'complex'))
         try:
-            toks, nm = project(m, version, zen, azi)
+            toks, nm = project(m, version, zen, azi, req)
         except NotImplementedError:
             ck.count('not_expressible')
             continue
@@ -438,11 +563,13 @@ def run(ck):
             elif lines != real:
                 k = next((i for i, (a, b) in enumerate(zip(lines, real)) if a != b), min(len(lines), len(real)))
                 why = 'line %d: implementation %r, model %r' % (k + 1, real[k] if k < len(real) else None, lines[k] if k < len(lines) else None)
-        bad = property_on_impl(argv, version, srcform)
+        bad = property_on_impl(argv, version, srcform, req)
+        if req:
+            ck.count('requests_api' + ('_vm' if req['ff_abs'] else '') + ('_near' if req['near'] else ''))
         if bad:
-            viol.append(dict(kind='basic-input', argv=argv, version=version, srcform=srcform, observed=bad))
+            viol.append(dict(kind='basic-input', argv=argv, version=version, srcform=srcform, req=req, observed=bad))
         elif why:
-            dis.append(dict(argv=argv, version=version, srcform=srcform, why=why))
+            dis.append(dict(argv=argv, version=version, srcform=srcform, req=req, why=why))
     ck.stats['disagreements'] = len(dis)
     ck.cov['rule'] = ('command lines with straight / bent / fuzzily joined wires, tapered wires, arcs, helices, all media forms '
                       '(ideal, one, two linear/circular, three, radials), 1-2 source voltages (given as complex numbers or as magnitude and phase: plain, negative magnitude, phase a turn on), impedance / RLC / trap / '
@@ -450,7 +577,7 @@ def run(ck):
                       'distinct = distinct (structure kind, version, option set)')
     ck.assumptions += ["the prompt order of MININEC-3 is taken from the comments in as_basic_input (the BASIC source is not in the repository)",
                        "numbers are rendered with Python's % operator from the format recorded in the model token",
-                       'near-field blocks of as_basic_input are reachable only through the Python API and are not modelled']
+                       'the V/m pattern request, the pattern file and the near-field blocks of as_basic_input are reachable only through the Python API; half of the cases go through it']
     seen = set()
     for v in viol:
         key = v['observed'].split(':')[0][:30]
